@@ -8,6 +8,7 @@ differences of half-open range lists); membership is evaluated pointwise, emptin
 the finite set of range bounds (`SetE.isEmpty`, proved exact in `Lemmas/RegexClass.lean`).  The
 list representation of `UnicodeSubset` itself is the subject of C13, not of this file.
 -/
+import EPV.Model.CharSubsetParse
 namespace EPV.Regex
 
 abbrev Ch := Nat
@@ -133,53 +134,16 @@ structure MTables where
 
 def chIn (c : Ch) (s : String) : Bool := s.toList.any fun d => d.toNat == c
 
-/-- `iterparse_character_subset(s)` (codepoints.py:117-207 incl. fix da42663, `expand_ranges=False`): the loop over
-`k`, with the local variables `escaped`, `on_range`, `char`; yields half-open ranges -/
-def iterparse (s : Array Ch) : Nat → Nat → Bool → Bool → Ch → List (Nat × Nat) → Option (List (Nat × Nat))
-  | 0, _, _, _, _, _ => none
-  | fuel + 1, k, escaped, onRange, char, acc =>
-    let length := s.size
-    if k ≥ length then
-      some (if escaped then (92, 93) :: acc else acc)              -- `if escaped: yield ord('\\')`
-    else
-    let c := s[k]!
-    let one (x : Ch) : Nat × Nat := (x, x + 1)
-    if k == 0 then
-      if c == 92 then iterparse s fuel 1 true onRange c acc
-      else if (c == 91 || c == 93) && length > 1 then none
-      else if length ≤ 2 || s[1]! != 45 then iterparse s fuel 1 escaped onRange c (one c :: acc)
-      else iterparse s fuel 1 escaped onRange c acc
-    else if c == 45 then
-      if escaped || k == length - 1 then iterparse s fuel (k + 1) false onRange c (one c :: acc)
-      else if onRange then iterparse s fuel (k + 1) escaped false c (one c :: acc)
-      else
-        -- parse a character range: `k = next(...)`, `end_char = s[k]`
-        let k1 := k + 1
-        let e := s[k1]!
-        let special := e == 92 && k1 < length - 1
-        if special && chIn s[k1 + 1]! "sSdDiIcCwWpP" then none
-        else
-          let (k2, e) := if special && chIn s[k1 + 1]! "-|.^?*+{}()[]" then (k1 + 1, s[k1 + 1]!) else (k1, e)
-          -- (fix da42663) `elif s[k + 1] == '\\': escaped = True`: the range ends with an escaped backslash
-          let escaped' := escaped || (special && s[k1 + 1]! == 92)
-          if char > e then none
-          else iterparse s fuel (k2 + 1) escaped' true char ((char, e + 1) :: acc)
-    else if chIn c "|.^?*+{}()" then iterparse s fuel (k + 1) false false c (one c :: acc)
-    else if c == 91 || c == 93 then
-      if !escaped && length > 1 then none
-      else if k ≥ length - 2 || s[k + 1]! != 45 then iterparse s fuel (k + 1) false false c (one c :: acc)
-      else iterparse s fuel (k + 1) false false c acc
-    else if c == 92 then
-      if escaped then iterparse s fuel (k + 1) false false 92 (one 92 :: acc)
-      else iterparse s fuel (k + 1) true onRange char acc
-    else
-      let acc := if escaped then one 92 :: acc else acc
-      if k ≥ length - 2 || s[k + 1]! != 45 then iterparse s fuel (k + 1) false false c (one c :: acc)
-      else iterparse s fuel (k + 1) false false c acc
+/-- the set of a list of code-point entries as `UnicodeSubset` stores them -/
+def cpSet (l : List EPV.USet.CP) : SetE :=
+  .ranges (l.map fun | .one n => (n, n + 1) | .rng a b => (a, b))
 
-/-- `UnicodeSubset.update(str)` as a set: the union of what `iterparse_character_subset` yields -/
+/-- `UnicodeSubset.update(str)` as a set: the union of what `iterparse_character_subset` yields.
+The generator itself (codepoints.py:117-207, state `escaped / on_range / char`, `next(iterator)`) is
+C13's transcription `EPV.USet.iterparse` (Model/CharSubsetParse.lean, imported read-only), which C13
+proves equal to the XSD group grammar where the grammar speaks (Props/C13Str.lean). -/
 def parseSubset (s : List Ch) : Option SetE :=
-  (iterparse s.toArray (s.length + 2) 0 false false 0 []).map SetE.ranges
+  (EPV.USet.iterparse s.toArray).map cpSet
 
 /-- does an escape token of `_re_char_set` start here?  returns its length.
 `\\[nrt|.\-^?*+{}()\]sSdDiIcCwW]`  or  `\\[pP]{[a-zA-Z\-0-9]+}` -/
